@@ -1,6 +1,7 @@
 package checks
 
 import (
+	"context"
 	"reflect"
 
 	"github.com/vimeo/dials"
@@ -48,8 +49,37 @@ func c03BuildSelfSlice() *c03SelfSlice {
 	return v
 }
 
+// c03ListCfg: a config type with the most common recursive node type, a struct that points at its own type through
+// a direct pointer field (linked list). ptrify.Pointerify recurses on such a TYPE for ever, so dials.Config overflows
+// the stack whatever the values are (open finding, see known_findings.json and DESIGN.md).
+type c03ListNode struct {
+	ID   int
+	Next *c03ListNode
+}
+
+type c03ListCfg struct {
+	Head *c03ListNode
+	Name string
+}
+
+const c03RecursiveTypeKey = "crash-stack-overflow:config-type-with-a-direct-self-referential-pointer-field"
+
 func c03RunCustom(w *fw.Worker, i int, fc *c03FixedCase) {
 	switch fc.Custom {
+	case "recursive-pointer-type-config":
+		a, b := &c03ListNode{ID: 1}, &c03ListNode{ID: 2}
+		a.Next, b.Next = b, a
+		def := &c03ListCfg{Head: a, Name: "list"}
+		d, err := dials.Config(context.Background(), def)
+		w.Count("b_scenarios", 1)
+		if err != nil {
+			w.Violation(i, "config-error:recursive-pointer-type", err.Error(), map[string]any{"fixed": fc.Name})
+			return
+		}
+		v := d.View()
+		if !reflect.DeepEqual(v, def) || v.Head == a || v.Head.Next.Next != v.Head {
+			w.Violation(i, "not-deep-equal:config:recursive-pointer-type", "the 2-cycle of list nodes in the defaults did not come back deeply equal, fresh and still a cycle", map[string]any{"fixed": fc.Name})
+		}
 	case "typed-slice-self":
 		in, exp := c03BuildSelfSlice(), c03BuildSelfSlice()
 		out := dials.VerifDeepCopy(reflect.ValueOf(in))
@@ -61,6 +91,7 @@ func c03RunCustom(w *fw.Worker, i int, fc *c03FixedCase) {
 
 func c03Fixed() []c03FixedCase {
 	var out []c03FixedCase
+	out = append(out, c03FixedCase{Name: "config/type-with-direct-self-referential-pointer-field", Custom: "recursive-pointer-type-config", CrashKey: c03RecursiveTypeKey})
 	if c03IncludeTypedSliceSelfCase {
 		out = append(out, c03FixedCase{Name: "typed-slice-reaching-itself-through-its-by-value-element", Custom: "typed-slice-self", CrashKey: c03TypedSliceSelfKey})
 	}
